@@ -128,7 +128,7 @@ class CustomChord(Chord):
         -------
 
         """
-        chord_str = f"{self.tonality_to_str()}({self.notes_to_str()})"
+        chord_str = f"{self.tonality_to_str()}({self.notes_to_str()}){self.extension_to_str()}"
         if self.octave != 0:
             chord_str = f"{chord_str}.o({self.octave})"
 
